@@ -78,14 +78,16 @@ def _copy_tree(tree: Tree) -> Tree:
     Returns a copy of the tree that shares neither Tree instances nor children lists nor tokens with the original.
     Same result as copy.deepcopy(tree), but without recursion: the trees of long expressions are deeply nested and
     copy.deepcopy exceeds the recursion limit for them.
+    The labels (tree.data) are copied as well: for rules without an alias lark uses one Token('RULE', ...) object
+    per rule, shared by all trees the parser ever returns.
     """
-    tree_copied = type(tree)(tree.data, [], meta=getattr(tree, "_meta", None))
+    tree_copied = type(tree)(copy.copy(tree.data), [], meta=getattr(tree, "_meta", None))
     stack = [(tree, tree_copied)]
     while stack:
         original, duplicate = stack.pop()
         for child in original.children:
             if isinstance(child, Tree):
-                child_copied = type(child)(child.data, [], meta=getattr(child, "_meta", None))
+                child_copied = type(child)(copy.copy(child.data), [], meta=getattr(child, "_meta", None))
                 duplicate.children.append(child_copied)
                 stack.append((child, child_copied))
             else:
